@@ -1,7 +1,7 @@
 #!/bin/sh
 # all stored seeded changes against their own property's quick check
 cd /verif
-for d in seeded/*/m*; do
+for d in seeded/C*/m*; do
   pid=$(echo $d | cut -d/ -f2)
   out=$(tools/try_mutant.sh /verif/$d/patch.diff $pid 2>&1)
   rc=$(echo "$out" | grep -E "^== $pid rc=" | sed 's/.*rc=//')
